@@ -314,7 +314,7 @@ type c19Limits struct {
 
 func c19LimitsFor(tier string) c19Limits {
 	if tier == "thorough" {
-		return c19Limits{lists: 3000, docLists: true, joint: 24, orders: 8, plainReps: 50, plainProc: 3}
+		return c19Limits{lists: 10000, docLists: true, joint: 24, orders: 8, plainReps: 50, plainProc: 3}
 	}
 	if tier == "smoke" { // determinism self-test only
 		return c19Limits{lists: 25, docLists: false, joint: 3, orders: 2, plainReps: 5, plainProc: 2}
